@@ -8,7 +8,8 @@ C03 helper driver (c03w10), kind `rw`: the reply write path with a FAILING downs
 src    up:<code>:<d><t> (complete upstream answer) | st:<code>:<d><t> (head of a streamed answer: the upstream stream is still
        open) | loc:<why>:<code>:<b> (a reply MOSN generates itself, with / without body)
 f_x    1 = the sender call of that part returns an error
-reset  `-` | `h` | `d` | `t`: the client's reset of the downstream stream is delivered from inside that sender call
+reset  `-` | `h` | `d` | `t`: the client's reset of the downstream stream is delivered from inside that sender call;
+       `H` | `D` | `T`: the connection-close event (proxy.onDownstreamEvent) is delivered from inside that call
 
 `A` = the model (`Model/ReplyWrite.lean`: the REGENERATED bodies of appendHeaders / appendData / appendTrailers inside the
 regenerated callers' sequence; the reset op inserted right after the `call` step of the named part; the reply shape of MOSN's
@@ -36,15 +37,17 @@ structure Case where
   code : Nat
   outs : Outs
   reset : Option Part
+  viaConn : Bool := false
 
 def parseDT (dt : String) : Option (Bool × Bool) :=
   match dt.toList with
   | [d, t] => do pure (← b01 d.toString, ← b01 t.toString)
   | _ => none
 
-def parsePart (s : String) : Option (Option Part) :=
-  if s == "-" then some none else if s == "h" then some (some .headers) else if s == "d" then some (some .data)
-  else if s == "t" then some (some .trailers) else none
+def parsePart (s : String) : Option (Option Part × Bool) :=
+  if s == "-" then some (none, false) else if s == "h" then some (some .headers, false) else if s == "d" then some (some .data, false)
+  else if s == "t" then some (some .trailers, false) else if s == "H" then some (some .headers, true)
+  else if s == "D" then some (some .data, true) else if s == "T" then some (some .trailers, true) else none
 
 def parseCase : List String → Option Case
   | ["rw", src, fail, reset] => do
@@ -55,11 +58,11 @@ def parseCase : List String → Option Case
     match src.splitOn ":" with
     | ["up", code, dt] => do
       let (d, t) ← parseDT dt
-      pure ⟨false, false, d, t, ← code.toNat?, o, rs⟩
+      pure ⟨false, false, d, t, ← code.toNat?, o, rs.1, rs.2⟩
     | ["st", code, dt] => do
       let (d, t) ← parseDT dt
-      pure ⟨true, false, d, t, ← code.toNat?, o, rs⟩
-    | ["loc", _, code, b] => do pure ⟨false, true, ← b01 b, false, ← code.toNat?, o, rs⟩
+      pure ⟨true, false, d, t, ← code.toNat?, o, rs.1, rs.2⟩
+    | ["loc", _, code, b] => do pure ⟨false, true, ← b01 b, false, ← code.toNat?, o, rs.1, rs.2⟩
     | _ => none
   | _ => none
 
@@ -95,7 +98,7 @@ def model (cs : Case) : RW :=
   let rp := match cs.reset with
     | some p => posAfterCall (ops genProgs r) p
     | none => 17
-  writeReply genProgs r cs.outs rp (start false cs.streamed)
+  writeReply genProgs r cs.outs rp cs.viaConn (start false cs.streamed)
 
 def render (cs : Case) (f : RW) : String :=
   let st := if (f.ev.any isCall) then toString cs.code else "-"
